@@ -6,6 +6,8 @@
 //!
 //! A case is one line of the driver's protocol, so the same text is fed to the Lean driver.
 mod common;
+#[cfg(feature = "pool")]
+mod pool_shim;
 mod dns;
 // the daemon's own modules, copied from the repository under test by build.rs (group `reload`)
 #[allow(dead_code, unused_imports)]
@@ -43,6 +45,10 @@ use common::*;
 fn main() {
     let args: Vec<String> = std::env::args().collect();
     silence_panics();
+    #[cfg(feature = "pool")]
+    if args.len() >= 2 && (args[1] == "pool-worker" || args[1] == "pool-exec") {
+        std::process::exit(g_pool::sub_main(&args));
+    }
     if args.len() >= 6 && args[1] == "gen" {
         let group = args[2].as_str();
         let thorough = args[3] == "thorough";
